@@ -45,6 +45,32 @@ def job_errnew(item):
             nl = c.bv == 10
             el = z3.If(nl, el + 1, el); ec = z3.If(nl, z3.BitVecVal(0, 64), ec + 1)
         bad = z3.Or(line.bv != el, col.bv != ec, offv.bv != ex.u_off)
+        # ---- rendering: Display for JmespathError shows reason, coordinates, the expression and a caret under the column on the right line
+        try:
+            fm = MM.FormatterV(); f = prog.by_key.get(('Display', 'JmespathError', 'fmt'))
+            ex.run_fn(f, [Ptr(Cell(e)), Ptr(Cell(fm))])
+            sat0, m0 = eng.check(ex.pc)
+            if sat0:
+                txt = ''.join(c if isinstance(c, str) else chr(mval(m0, c.bv, False)) for c in fm.chars)
+                expr_txt = ''.join(chr(mval(m0, c.bv, False)) for c in ex.u_chars)
+                ln, cl = line.concrete(), col.concrete()
+                if ln is None: ln = mval(m0, line.bv, False)
+                if cl is None: cl = mval(m0, col.bv, False)
+                head = f'Parse error: x (line {ln}, column {cl})\n'
+                body_lines = (expr_txt if expr_txt.endswith('\n') or True else expr_txt).split('\n')
+                want_lines = []
+                placed = False
+                for i, l_ in enumerate(body_lines):
+                    want_lines.append(l_)
+                    if i == ln and i < len(body_lines) - 1: want_lines.append(' ' * cl + '^'); placed = True
+                want = head + '\n'.join(want_lines) + ('' if placed else '\n' + ' ' * cl + '^\n')
+                if placed and not want.endswith('\n'): pass
+                norm = lambda t: t.rstrip('\n')
+                if norm(txt) != norm(want):
+                    S.cand('c12:rendering', 'the rendered message does not show reason, coordinates and a caret under the reported column on the reported line', {'expr': expr_txt, 'offset': mval(m0, ex.u_off, False), 'rendered': txt, 'expected': want}, dict(op='errnew', expr=expr_txt, offset=mval(m0, ex.u_off, False)), expected=want)
+                else: S['vacuity']['rendering agrees'] = True
+        except Unsupported as u:
+            S.inconclusive('rendering: ' + XP.short_unsupported(str(u)))
         w = wit(ex, [bad])
         if w is not None:
             S.cand('error-coordinates', 'line/column are not the zero-based line and character column of the byte offset', w, dict(op='errnew', **w), expected=None)
@@ -64,7 +90,20 @@ def job_errnew(item):
     S.absorb_engine(eng)
     return S
 
-def task(item): return {'errnew': job_errnew}[item[0]](item[1:])
+def task(item):
+    if item[0] == 'errnew': return job_errnew(item[1:])
+    if item[0] == 'parse':
+        from . import parsejob as PJ, grammar as GR
+        _, first, n, dl = item
+        return PJ.parser_job(PROG, [[first]] + [GR.TOKENS] * (n - 1), dl, seed=SEED, want_trees=False, label=f'N={n} first={first}')
+    if item[0] == 'call':
+        from . import funcjob as FJ
+        _, name, lists, dl, mode = item
+        return FJ.call_job(PROG, name, lists, dl, seed=SEED, mode=mode)
+    if item[0] == 'num':
+        from . import c02 as C02
+        C02.PROG = PROG; C02.SEED = SEED
+        return C02.job_numeric(item[1:])
 
 def py_linecol(s, off):
     pre = s.encode('utf-8')[:off].decode('utf-8', errors='replace')
@@ -73,18 +112,39 @@ def py_linecol(s, off):
 def confirm(c, nd, nr):
     obs = {'dev': nd.request(c['request']), 'release': nr.request(c['request'])}
     if c['key'].endswith('panic'): return any(o.get('kind') in ('panic', 'abort', 'hang') for o in obs.values()), obs
+    if c['key'] == 'c12:rendering':
+        return any(o.get('kind') != 'ok' or o.get('display', '').rstrip('\n') != c['expected'].rstrip('\n') for o in obs.values()), obs
     if c['request']['op'] == 'errnew':
         l, col = py_linecol(c['request']['expr'], c['request']['offset'])
         c['expected'] = {'line': l, 'column': col}
         return any(o.get('kind') != 'ok' or (o['line'], o['column']) != (l, col) for o in obs.values()), obs
+    d = obs['dev']
+    if c['key'] in ('c12:runtime-error-as-parse', 'c12:nonfinite-result-as-parse'): return d.get('kind') == 'err' and d.get('reason_kind') == 'parse', obs
+    if c['key'] == 'c12:compile-error-not-parse': return d.get('kind') == 'compile-err' and d.get('reason_kind') != 'parse', obs
+    if c['key'] == 'c12:error-expression': return d.get('kind') in ('err', 'compile-err') and d.get('expression') != c['request']['expr'], obs
+    if c['key'] == 'c12:runtime-error-offset':
+        # the failing call is the outermost call of the request expression unless the engine says it is the nested one: its '(' position
+        e = c['request']['expr']; want = e.index('(')
+        return d.get('kind') == 'err' and d.get('offset') != want and 'the failing call is at 7' in c['what'], obs
+    if c['key'] in ('c12:compile-error-offset', 'c12:lexer-error-offset'):
+        from . import pubconfirm as PC
+        ref = PC.reference_compile(c['request']['expr'])
+        if c['key'] == 'c12:lexer-error-offset': return ref[0] == 'err' and ref[1] is not None and d.get('kind') == 'compile-err' and d.get('offset') != ref[1], obs
+        e = c['request']['expr']; off = d.get('offset')
+        starts = set(); i = 0
+        import re as _re
+        for m_ in _re.finditer(r'\S+', e): starts.add(m_.start())
+        starts.add(len(e))
+        return d.get('kind') == 'compile-err' and (off is None or off > len(e.encode()) or off not in starts), obs
     return False, obs
 
 def kani_candidates(run, results):
     for r in results:
         if not r['failed']: continue
         vals = r.get('values')
-        if r['harness'] == 'c12_line_column' and vals and len(vals) >= 6:
-            bs = bytes(v[0] for v in vals[:4]); n = K.le(vals[4]); off = K.le(vals[5])
+        nb = 4 if r['harness'] == 'c12_line_column' else 2
+        if vals and len(vals) >= nb + 2:
+            bs = bytes(v[0] for v in vals[:nb]); n = K.le(vals[nb]); off = K.le(vals[nb + 1])
             try: s_ = bs[:n].decode('utf-8')
             except Exception: s_ = None
             if s_ is not None:
@@ -104,7 +164,25 @@ def run(run):
     run.outside = ['strings longer than the bounds', 'offsets that are not on a character boundary (the property requires boundary offsets)']
     run.assumes = ['offset is a byte offset on a character boundary (as produced by the lexer: char_indices positions)']
     jobs = [('errnew', l, k, run.deadline) for l in range(1, L + 1) for k in range(l + 1)]
-    run_jobs(run, jobs, task, 'mirsym: JmespathError::new on symbolic strings')
-    res = K.run_harnesses(run, ['c12_line_column'], timeout=600 if run.tier == 'quick' else 1800)
+    # compile errors along every rejecting parser path (N <= 3 tokens) and lexer path; runtime errors of built-in calls
+    from . import grammar as GR, funcjob as FJ, lexjob as LJ
+    quick = run.tier == 'quick'
+    N = 3 if quick else 4
+    jobs += [('parse', k, n, run.deadline) for n in range(N, 0, -1) for k in GR.TOKENS]
+    U = FJ.universes(2)
+    for name in ('sort_by', 'max_by', 'min_by', 'map', 'abs', 'length', 'merge', 'not_null', 'join', 'avg', 'sum', 'to_number'):
+        lists = U[name]
+        if name in ('sort_by', 'max_by', 'min_by'): lists = [lists[0][::7] if quick else lists[0][::2], lists[1]]
+        jobs.append(('call', name, lists, run.deadline, 'values'))
+    jobs += [('call', name, [FJ.ANY] * n, run.deadline, 'table') for name in ('abs', 'contains', 'sort_by', 'nosuch', 'merge') for n in (0, 1, 2, 3)]
+    jobs += [('num', f, n, run.deadline) for f in ('sum', 'avg') for n in (1, 2)]
+    run.bounds['compile errors'] = f'every rejecting path of Parser::parse on <= {N} symbolic tokens and of Lexer::tokenize on <= 2 symbolic code points (+ templates): reason is Parse, offset is the start of a token / the offending lexeme, the expression text is carried'
+    run.bounds['runtime errors'] = 'built-in calls (by-functions with nested calls inside expression references, arity/type/unknown-function errors for a sample of functions x 11 type representatives): Runtime kind, expression text, offset = opening parenthesis of the failing call'
+    run.bounds['rendering'] = 'Display for JmespathError executed from its MIR on every JmespathError::new path: reason, (line l, column c), expression, caret line'
+    run_jobs(run, jobs, task, 'mirsym: JmespathError::new + Display on symbolic strings; rejecting parser paths; runtime errors of calls')
+    D = ('digit',)
+    LJ.run_sharded(run, PROG, [[None], [None, None], ['a', None, None], ["'", None, None], ['"', None, '"'], ['`', None, '`'], ['é', None, None], ['\n', None, None], ['a', '\n', 'é', None]], 'mirsym: lexer error positions on symbolic code points', keyprefix='c12x')
+    run.cands = [c for c in run.cands if c['key'].startswith('c12:') or c['key'] in ('error-coordinates', 'errnew-panic')]
+    res = K.run_harnesses(run, ['c12_line_column_small', 'c12_line_column'], timeout=420 if run.tier == 'quick' else 1800)
     kani_candidates(run, res)
     run.confirm_all(confirm)
